@@ -115,6 +115,7 @@ class Recorder:
         self.max_events = 20000
         self.truncated = False
         self.hw_items = 0
+        self.contracts = getattr(self, 'contracts', {})
         self.hw_item_size = 0
 
     # ------------------------------------------------------------------ install
@@ -200,7 +201,7 @@ class Recorder:
             self.stack_obj, self.cache_obj = stack, cache
             rec = {'entered': False, 'code': code, 'prim': None}
             try:
-                rec['prim'] = opsem.prims(code, tape.data, tape.pointer, list(stack.deque), self.sc0)
+                rec['prim'] = opsem.prims(code, tape.data, tape.pointer, list(stack.deque), self.sc0, self.contracts)
             except Exception as e:    # pragma: no cover
                 rec['prim'] = [{'n': 'REFERROR', 'a': [], 'r': [], 'e': repr(e)}]
             self.opstack.append(rec)
@@ -311,6 +312,7 @@ class Recorder:
         self.prev_bc = {k: (list(v) if isinstance(v, list) else v) for k, v in bc0.items()}
         contracts = contracts or {}
         plugins = plugins or {}
+        self.contracts = contracts
         kw = dict(cache_vals=cache_vals, contracts=contracts, plugins=plugins,
                   stack_max_items=max_items, stack_max_item_size=max_item_size,
                   callstack_limit=callstack_limit)
@@ -339,7 +341,7 @@ class Recorder:
             'maxItems': max_items, 'maxItemSize': max_item_size, 'callLimit': callstack_limit,
             'sc': [sc_entry(k, v) for k, v in self.sc0.items() if isinstance(k, str)],
             'bc0': [[list(k), *bc_val(v)] for k, v in bc0.items()],
-            'defaults': flags_ser(F.flags), 'flags': flags_ser(additional_flags or {}) if not auth else [],
+            'defaults': flags_ser(F.flags), 'toset': [fkey(k) for k in F.flags_to_set], 'flags': flags_ser(additional_flags or {}) if not auth else [],
             'nsig': nsig, 'nct': nct, 'contracts': [list(k) for k in contracts],
             'now': list(self.now.to_bytes(8, 'big').lstrip(b'\0')),
             'forks': [[c, k] for c, k in (forks or {}).items()],
